@@ -47,6 +47,13 @@ pub struct TaskSlot {
     pub side: u8,
 }
 
+/// 11-bit code of a task name (step identity for the partial-order mode)
+fn name_code(n: &str) -> u16 {
+    let mut h = Fnv::default();
+    h.str(n);
+    (h.0 % 0x07f0) as u16
+}
+
 fn side_of_name(n: &str) -> u8 {
     if n.ends_with('A') || n.ends_with(".a") || n.contains(".a.") {
         0
@@ -156,6 +163,17 @@ impl Sim {
         self.tasks.len() - 1
     }
 
+    fn check_codes(&self) {
+        let mut seen = std::collections::HashMap::new();
+        for t in &self.tasks {
+            if let Some(o) = seen.insert(name_code(&t.name), t.name.clone()) {
+                if o != t.name {
+                    panic!("task name codes collide: {o} / {}", t.name);
+                }
+            }
+        }
+    }
+
     fn absorb_spawned(&mut self) {
         let new: Vec<_> = self.spawner.0.borrow_mut().drain(..).collect();
         for (name, group, fut) in new {
@@ -172,6 +190,9 @@ impl Sim {
                 polls: 0,
                 group,
             });
+        }
+        if !self.tasks.is_empty() && self.tasks.len() < 64 {
+            self.check_codes();
         }
     }
 
@@ -195,7 +216,8 @@ impl Sim {
     /// to that endpoint (it pops the head of a queue the sender only appends to).
     pub fn step_ident(&self, s: &Step) -> u16 {
         match s {
-            Step::Poll(i) => crate::explore::step_id(self.tasks[*i].side, *i as u16),
+            // the identity must not depend on the order in which tasks happened to be spawned
+            Step::Poll(i) => crate::explore::step_id(self.tasks[*i].side, name_code(&self.tasks[*i].name)),
             Step::Deliver(d) => crate::explore::step_id(1 - *d as u8, 0x0ff0 + *d as u16),
             Step::Extra(k) => crate::explore::step_id(2, 0x0fe0 + *k as u16),
         }
